@@ -451,6 +451,46 @@ CANARIES = [
 ]
 
 
+MODE_TOL = 1e-12
+
+
+def modes_item(nmax):
+    """concrete sweep: the table of squared mode numbers the real (float) solver builds for every theta count up to nmax is
+    the integer FFT-ordered table 0, 1, ..., -2, -1 squared (to MODE_TOL relative: a last-bit deviation is rounding)"""
+    res = H.worker_result()
+    m = dist.mods()
+    ps = H.repo_import('pygyro.poisson.poisson_solver')
+    kn = m['spl'].make_knots(np.linspace(1, 3, 3), 1, False)
+    rb = m['spl'].BSplines(kn, 1, False, False)
+    nr = len(rb.greville)
+    bad = []
+    for n in range(1, nmax + 1):
+        res['obligations'] += 1
+        try:
+            with warnings.catch_warnings():
+                warnings.simplefilter('ignore')
+                got = np.array(ps.DiffEqSolver(2, rb, nr, n)._mVals, dtype=float)
+            want = np.array([k * k for k in mode_numbers(n)], dtype=float)
+            ok = got.shape == want.shape and bool(np.all(np.abs(got - want) <= MODE_TOL * np.maximum(1.0, want)))
+        except Exception as e:
+            ok, got, want = False, '%s: %s' % (type(e).__name__, e), None
+        if ok:
+            res['discharged'] += 1
+        else:
+            bad.append(n)
+            if len(bad) == 1:
+                first = (n, got, want)
+    if bad:
+        n, got, want = first
+        where = [int(i) for i in np.nonzero(np.abs(got - want) > MODE_TOL * np.maximum(1.0, want))[0][:4]] if want is not None and np.shape(got) == np.shape(want) else []
+        res['violations'].append(('modes:table', 'ntheta = %d: squared mode numbers of the solver %s, of the FFT ordering %s (bins %s); theta counts affected up to %d: %s' % (
+            n, [float(got[i]) for i in where] if where else str(got)[:80], [float(want[i]) for i in where] if where else '', where, nmax, bad[:12]),
+            dict(kind='modes', ntheta=n, bins=where, affected=bad[:40])))
+    else:
+        res['nontrivial'].append('modes|%d' % nmax)
+    return res
+
+
 def main():
     run = H.Run(PID, 'proof')
     m = dist.mods()
@@ -478,6 +518,8 @@ def main():
             items.append((1, 2, 'nu', (1, 1), True, chi, 2, None))
         items.append((3, 3, 'cu', (2, 1), False, 0, 4, None))
         items.append((2, 2, 'nu', (3, 1), False, 0, 3, None))
+    run.merge(modes_item(64 if quick else 600))
+    run.sections['mode_number_table'] = 'theta counts 1..%d' % (64 if quick else 600)
     cn = CANARIES[0]
     items.append(cn[3] + (cn[:3],))
     caught = {}
@@ -497,7 +539,7 @@ def main():
                                              'scipy.sparse: dense stand-in', 'n0, Te, n0\'/n0: rational profile functions passed through the constructor\'s own keyword arguments']
     numenv.disable()
     run.bounds = dict(ntheta='4 and 3 (thorough also 2 and 6)', radial='degrees 1-3, 2-3 cells, uniform breaks', process_grids='(1,1),(2,1),(1,2) (thorough (2,2),(4,1))', electrons='adiabatic chi in {0,1}; kinetic')
-    run.outside = ['FFT round trip is the identity (holds by the DFT contract used here, not decided)', 'theta counts other than 2, 3, 4, 6 (twiddle factors outside Q(i, sqrt 3))',
+    run.outside = ['FFT round trip is the identity (holds by the DFT contract used here, not decided)', 'theta counts other than 2, 3, 4, 6 in the solved part (twiddle factors outside Q(i, sqrt 3)); the mode-number table alone is compared for every theta count up to 64 (thorough 600) concretely',
                    'the equilibrium as a fixed point of the complete time step', 'rounding']
     run.assumptions = ['scipy.fftpack.fft/ifft implement the DFT definition', 'exact reals for doubles', 'spsolve contract']
     run.finish(
